@@ -101,7 +101,7 @@ var (
 	stakingAddr = params.StakingModuleAddress
 
 	// value prefixes of the validator trie (core/state/statedb_val.go:42-45) and of the
-	// staking trie (core/state/statedb_staking.go:35)
+	// staking trie (core/state/statedb_staking.go:37)
 	pfxVal     = []byte("valinfo-")
 	pfxIndex   = []byte("valindex")
 	pfxStat    = []byte("valstat")
@@ -281,7 +281,7 @@ func buildCodecs() (list []*codec, byName map[string]*codec) {
 	}})
 
 	// -- stored records, through the rawdb accessors --
-	add(&codec{name: "disk-header", caller: "rawdb.ReadHeader (core/rawdb/accessors_chain.go:188)", dec: func(b []byte) decoded {
+	add(&codec{name: "disk-header", caller: "rawdb.ReadHeader (core/rawdb/accessors_chain.go:173-183, rlp.Decode on a reader)", dec: func(b []byte) decoded {
 		return onScratch(headerKey(scratchNum, scratchHash), b, func(d *simdisk.Disk) decoded {
 			h := rawdb.ReadHeader(d, scratchHash, scratchNum)
 			if h == nil {
@@ -290,7 +290,7 @@ func buildCodecs() (list []*codec, byName map[string]*codec) {
 			return acc(h, func() string { return headerView(h) }, headerNested(h)...)
 		})
 	}})
-	add(&codec{name: "disk-body", caller: "rawdb.ReadBody (core/rawdb/accessors_chain.go:250)", dec: func(b []byte) decoded {
+	add(&codec{name: "disk-body", caller: "rawdb.ReadBody (core/rawdb/accessors_chain.go:242-252, rlp.Decode on a reader)", dec: func(b []byte) decoded {
 		return onScratch(bodyKey(scratchNum, scratchHash), b, func(d *simdisk.Disk) decoded {
 			body := rawdb.ReadBody(d, scratchHash, scratchNum)
 			if body == nil {
@@ -299,7 +299,7 @@ func buildCodecs() (list []*codec, byName map[string]*codec) {
 			return acc(body, func() string { return txsView(body.Transactions) }, txNested(body.Transactions)...)
 		})
 	}})
-	add(&codec{name: "disk-receipts", caller: "rawdb.ReadReceipts (core/rawdb/accessors_chain.go:278)", dec: func(b []byte) decoded {
+	add(&codec{name: "disk-receipts", caller: "rawdb.ReadReceipts (core/rawdb/accessors_chain.go:272-290)", dec: func(b []byte) decoded {
 		return onScratch(receiptsKey(scratchNum, scratchHash), b, func(d *simdisk.Disk) decoded {
 			rcs := rawdb.ReadReceipts(d, scratchHash, scratchNum)
 			if rcs == nil {
@@ -313,7 +313,7 @@ func buildCodecs() (list []*codec, byName map[string]*codec) {
 			return acc(st, func() string { return storedReceiptView(rcs) }, receiptsNested(rcs)...)
 		})
 	}})
-	add(&codec{name: "tx-lookup", caller: "rawdb.ReadTxLookupEntry (core/rawdb/accessors_indexes.go:27)", dec: func(b []byte) decoded {
+	add(&codec{name: "tx-lookup", caller: "rawdb.ReadTxLookupEntry (core/rawdb/accessors_indexes.go:28)", dec: func(b []byte) decoded {
 		return onScratch(lookupKey(scratchHash), b, func(d *simdisk.Disk) decoded {
 			bh, num, idx := rawdb.ReadTxLookupEntry(d, scratchHash)
 			if bh == (common.Hash{}) {
@@ -335,9 +335,9 @@ func buildCodecs() (list []*codec, byName map[string]*codec) {
 	}})
 
 	// -- state records (leaves of the three tries, blobs) --
-	add(plain("account", "state.StateDB.getStateObject (core/state/statedb.go: rlp.DecodeBytes into state.Account)",
+	add(plain("account", "state.StateDB.getStateObject (core/state/statedb.go:524: rlp.DecodeBytes into state.Account)",
 		func() interface{} { return new(state.Account) }, nil, nil))
-	add(&codec{name: "storage-slot", caller: "stateObject.GetCommittedState (core/state/state_object.go: rlp.Split of the slot value)", dec: func(b []byte) decoded {
+	add(&codec{name: "storage-slot", caller: "stateObject.GetCommittedState (core/state/state_object.go:204: rlp.Split of the slot value)", dec: func(b []byte) decoded {
 		_, content, _, err := rlp.Split(b)
 		if err != nil {
 			return rej(err)
@@ -358,9 +358,9 @@ func buildCodecs() (list []*codec, byName map[string]*codec) {
 		func(v interface{}) string { return fmt.Sprintf("%x", v.(*state.ValidatorIndex).List()) }, nil))
 	add(plain("withdraw-queue", "state.StateDB.getWithdrawQueue (core/state/statedb_val.go:476-481: NewWithdrawQueue, then rlp.DecodeBytes)",
 		func() interface{} { return state.NewWithdrawQueue() }, nil, nil))
-	add(plain("staking-record", "state.StateDB.getStakingRecord / ForEachStakingRecord (core/state/statedb_staking.go: rlp.DecodeBytes into state.Record)",
+	add(plain("staking-record", "state.StateDB.getStakingRecord / ForEachStakingRecord (core/state/statedb_staking.go:165, 240: rlp.DecodeBytes into state.Record)",
 		func() interface{} { return new(state.Record) }, nil, nil))
-	add(plain("pending-relationship", "state.StateDB.loadPendingRelationship (core/state/statedb_staking.go:39; the record type is unexported: decoded into its exported shape, a list of 40-byte arrays)",
+	add(plain("pending-relationship", "state.StateDB.loadPendingRelationship (core/state/statedb_staking.go:47; the record type is unexported: decoded into its exported shape, a list of 40-byte arrays)",
 		func() interface{} { return new([]*[40]byte) },
 		func(v interface{}) string {
 			var sb strings.Builder
@@ -369,7 +369,7 @@ func buildCodecs() (list []*codec, byName map[string]*codec) {
 			}
 			return sb.String()
 		}, nil))
-	add(plain("delegations-blob", "stateObject.loadDelegations (core/state/state_object.go:529: rlp.DecodeBytes into common.SortedAddresses)",
+	add(plain("delegations-blob", "stateObject.loadDelegations (core/state/state_object.go:530: rlp.DecodeBytes into common.SortedAddresses)",
 		func() interface{} { return new(common.SortedAddresses) }, nil, nil))
 
 	// -- staking messages --
@@ -409,7 +409,7 @@ func buildCodecs() (list []*codec, byName map[string]*codec) {
 				n = append(n, nested{"evidence:doublesign-legacy", evs[i].Data})
 			}
 		}
-		// staking.slashing encodes the slice of values (staking/slash.go:140)
+		// staking.slashing encodes the slice of values (staking/slash.go:150)
 		view := sb.String()
 		return acc(evs, func() string { return view }, n...)
 	}})
@@ -423,11 +423,11 @@ func buildCodecs() (list []*codec, byName map[string]*codec) {
 			e := v.(*staking.EvidenceDoubleSign)
 			return fmt.Sprintf("round=%v index=%d signs=%d", e.Round, e.RoundIndex, len(e.Signs))
 		}, nil))
-	add(plain("slash-log-v5", "rlp data of the module's 'slashing' log (staking/slash_youv5.go:99, 214; decoded by clients into the exported staking.SlashDataV5)",
+	add(plain("slash-log-v5", "rlp data of the module's 'slashing' log (staking/slash_youv5.go:99, 210; decoded by clients into the exported staking.SlashDataV5)",
 		func() interface{} { return new(staking.SlashDataV5) }, nil, nil))
 
 	// -- consensus fields of the header --
-	add(&codec{name: "consensus-data", caller: "ucon.ExtractConsensusData (consensus/ucon/block_consensus_data.go:103)", dec: func(b []byte) decoded {
+	add(&codec{name: "consensus-data", caller: "ucon.ExtractConsensusData (consensus/ucon/block_consensus_data.go:106)", dec: func(b []byte) decoded {
 		cd, err := ucon.ExtractConsensusData(&types.Header{Consensus: b})
 		if err != nil {
 			return rej(err)
@@ -436,7 +436,7 @@ func buildCodecs() (list []*codec, byName map[string]*codec) {
 		return decoded{accepted: true, re: re, reErr: eerr, view: func() string { return jsonView(cd) }}
 	}})
 	uv := func(name string, lb params.LookBackType, set func(h *types.Header, b []byte)) *codec {
-		return &codec{name: name, caller: "ucon.ExtractUconValidators (consensus/ucon/ucon_validators.go:83)", dec: func(b []byte) decoded {
+		return &codec{name: name, caller: "ucon.ExtractUconValidators (consensus/ucon/ucon_validators.go:84)", dec: func(b []byte) decoded {
 			h := &types.Header{}
 			set(h, b)
 			v, err := ucon.ExtractUconValidators(h, lb)
